@@ -835,8 +835,10 @@ class ParserHelper:
             adjusted_text_token, ParserHelper.__backspace_character, 0
         )
         while next_backspace_index != -1:
+            # A backspace that is the first character has nothing before it to remove;
+            # a slice ending at -1 would duplicate (nearly) the whole string instead.
             adjusted_text_token = (
-                adjusted_text_token[: next_backspace_index - 1]
+                adjusted_text_token[: max(next_backspace_index - 1, 0)]
                 + adjusted_text_token[next_backspace_index + 1 :]
             )
             next_backspace_index = ParserHelper.__find_with_escape(
